@@ -6,7 +6,7 @@ VidsDef == << [format |-> 0, data |-> << 0, 0, 18, 52 >>, num |-> << 0, 171 >>],
               [format |-> 0, data |-> << 0, 0, 190, 239 >>, num |-> << 1, 0 >>] >>
 UuidDef   == [i \in 1..16 |-> 15 * i + 1]
 MtsDef    == << 126, 5 >>
-ScriptAll == << "set", "geteid", "uuid", "types", "vendor" >>
+ScriptAll == << "set", "geteid", "uuid", "version", "types", "unsupp", "vendor" >>
 ScriptShort == << "set", "geteid", "vendor" >>
 ScriptReassign == << "set", "geteid", "set2", "geteid" >>
 (* single-bit flips at both ends of a byte, a full-byte burst, a burst straddling two bytes *)
